@@ -21,7 +21,7 @@ import (
 var mixSections = []string{"paths", "definitions", "parameters", "responses", "securityDefinitions"}
 var mixLists = []string{"consumes", "produces", "schemes"}
 var mixListAlts = [][]any{nil, {"x"}, {"y"}, {"x", "y"}, {"y", "x"}, {"x", "x"}}
-var mixTagAlts = [][]string{nil, {"t1"}, {"t2"}, {"t1", "t2"}, {"t2", "t1"}}
+var mixTagAlts = [][]string{nil, {"tagOne"}, {"tagTwo"}, {"tagOne", "tagTwo"}, {"tagTwo", "tagOne"}}
 var mixSecAlts = [][]any{nil, {J{"k": []any{}}}, {J{"j": []any{"s"}}}, {J{"k": []any{}}, J{"j": []any{"s"}}}, {J{}}}
 
 func mixValue(section, key, origin string) any {
@@ -405,7 +405,8 @@ func c17Check(c *mixCase, pol mcrt.Policy) (sig, what string, nontrivial bool, o
 				}
 				continue
 			}
-			if w == key || strings.Contains(w, "'"+key+"'") {
+			// the wording of the warning is free: it only has to name the key
+			if w == key || strings.Contains(w, key) {
 				used[i], found = true, true
 				break
 			}
